@@ -1,7 +1,7 @@
 (* C17 - Package file names round-trip; latest-version selection is a maximum. *)
 From Coq Require Import String.
 From Coq Require Import NArith List Bool Permutation.
-From DI Require Import Result PyStr Version Dpkg VersionOrder Package SortFacts PackageFacts.
+From DI Require Import Result PyStr Version Dpkg VersionOrder Package SortFacts PackageFacts PerNameFacts.
 Import ListNotations.
 Open Scope N_scope.
 
@@ -83,6 +83,27 @@ Theorem C17_mixed_names : forall ps sorted x y,
   find_latest_version_archives ps = Raise ValueError.
 Proof. exact mixed_names_raise. Qed.
 Print Assumptions C17_mixed_names.
+
+(* the per-name variant: one entry per name present; each is one of the inputs of that name whose
+   version no other input of that name exceeds under dpkg ordering; every name present has an
+   entry.  (The sort is by name first, so equal names are adjacent and groupby forms one group per
+   name: proved from the sort specification, for any order of the input files.) *)
+Theorem C17_latest_per_name : forall files ps out, files <> [] ->
+  mapM deb_from_filename files = Ok ps -> Forall wfa ps ->
+  find_latest_versions files = Ok (Some out) ->
+  NoDup (map fst out) /\
+  (forall n a, In (n, a) out -> In a ps /\ a_name a = n /\
+     forall q, In q ps -> a_name q = n -> vcmp (a_version q) (a_version a) <> Gt) /\
+  (forall p, In p ps -> exists a, In (a_name p, a) out).
+Proof. exact latest_per_name. Qed.
+Print Assumptions C17_latest_per_name.
+
+Example C17_per_name_nonvacuous :
+  match find_latest_versions [lit "b_2_all.deb"; lit "a_1.0_all.deb"; lit "b_10_all.deb"; lit "a_1.0~rc1_all.deb"; lit "b_9_all.deb"] with
+  | Ok (Some out) => map (fun na => (fst na, a_file (snd na))) out = [(lit "a", lit "a_1.0_all.deb"); (lit "b", lit "b_10_all.deb")]
+  | _ => False
+  end.
+Proof. vm_compute. reflexivity. Qed.
 
 Example C17_nonvacuous :
   exists a, find_latest_version [lit "d/p_1.0_all.deb"; lit "p_1:0.1_all.deb"; lit "p_1.00_amd64.deb"] = Ok (Some a) /\
